@@ -531,6 +531,10 @@ pub trait RaftRoleState: Send + Sync + 'static {
         if my_term < request_term {
             self.update_current_term(request_term);
         }
+        // Persist a newly learned term / leader before acknowledging (not on every heartbeat).
+        if my_term < request_term || is_new_leader {
+            ctx.raft_log().save_hard_state(&self.shared_state().hard_state)?;
+        }
 
         // My term might be updated, has to fetch it again
         let my_term = self.current_term();
